@@ -5,6 +5,7 @@ Import ListNotations.
 Local Open Scope R_scope.
 
 Ltac ropen := cbn [T add sub mul div opp ofZ eqb ltb leb ROps] in *.
+Ltac rfix := change (T ROps) with R in *.
 Ltac runfold := unfold nthT, sq, zero, one, two in *; ropen.
 
 (* ================================================================== generic list / sum facts *)
@@ -435,3 +436,255 @@ Proof.
   - rewrite Nat.min_l, Nat.max_r by lia. rcase; lra.
   - rewrite Nat.min_r, Nat.max_l by lia. rcase; lra.
 Qed.
+
+(* ================================================================== B. w-tilde util functions *)
+Lemma rows_of_concat {A} (r : list (list A)) : rows_of (concat r) (map (@length A) r) = r.
+Proof.
+  induction r as [|x r IH]; cbn; auto.
+  rewrite firstn_app, Nat.sub_diag, firstn_all, firstn_O, app_nil_r.
+  rewrite skipn_app, skipn_all, Nat.sub_diag. cbn. now rewrite IH.
+Qed.
+Lemma combine_fst_snd {A B} (l : list (A * B)) : combine (map fst l) (map snd l) = l.
+Proof. induction l as [|[a b] l IH]; cbn; auto. now rewrite IH. Qed.
+Lemma rows_of_length {A} (flat : list A) lens : length (rows_of flat lens) = length lens.
+Proof. revert flat. induction lens; intros; cbn; auto. Qed.
+(* the running-index walk over the flat preload recovers the per-pixel rows *)
+Theorem preload_rows_recovered (noise : px -> R) (K : @kernel ROps) nfs :
+  let '(pre, idx, lens) := @preload ROps noise K nfs in
+  rows_of (combine idx pre) lens = @preload_rows ROps noise K nfs.
+Proof. unfold preload. rewrite combine_fst_snd. apply rows_of_concat. Qed.
+
+Lemma combine_seq_nth {A} (l : list A) d a :
+  combine (seq a (length l)) l = map (fun i => (i, nth (i - a) l d)) (seq a (length l)).
+Proof.
+  revert a. induction l as [|x l IH]; intros a; cbn [length seq combine map]; auto.
+  rewrite Nat.sub_diag. cbn [nth]. f_equal. rewrite IH. apply map_ext_in. intros i Hi. apply in_seq in Hi.
+  replace (i - a)%nat with (S (i - S a)) by lia. reflexivity.
+Qed.
+Lemma sumR_combine_seq {A} (l : list A) d (g : nat * A -> R) :
+  sumR (map g (combine (seq 0 (length l)) l)) = sumR (map (fun i => g (i, nth i l d)) (seq 0 (length l))).
+Proof.
+  rewrite (combine_seq_nth l d 0), map_map. apply sumR_map_ext. intros i _. now rewrite Nat.sub_0_r.
+Qed.
+
+(* the matrix an encoding stands for, and the half matrix preload rows stand for *)
+Definition E (e : @enc ROps) (d p : nat) : R := sumR (hits p (enc_row e d)).
+Definition U (rws : list (list (nat * R))) (d0 d1 : nat) : R := sumR (hits d1 (nth d0 rws [])).
+Definition enc_ok (e : @enc ROps) (P : nat) : Prop := forall d pw, In pw (enc_row e d) -> (fst pw < P)%nat.
+Definition rows_ok (rws : list (list (nat * R))) (n : nat) : Prop :=
+  forall d0 iw, In iw (nth d0 rws []) -> (fst iw < n)%nat.
+
+Lemma mget_enc_matrix e n P d p : (d < n)%nat -> (p < P)%nat -> mget (@enc_matrix ROps e n P) d p = E e d p.
+Proof.
+  intros Hd Hp. rewrite mget_R. unfold enc_matrix. rewrite nth_map_seq by exact Hd. rewrite nth_map_seq by exact Hp.
+  rewrite sumT_sumR. reflexivity.
+Qed.
+
+Lemma group_by_index (row : list (nat * R)) (g : nat -> R) n : (forall iw, In iw row -> (fst iw < n)%nat) ->
+  sumR (map (fun iw => g (fst iw) * snd iw) row) = sumR (map (fun j => g j * sumR (hits j row)) (seq 0 n)).
+Proof.
+  induction row as [|[i w] row IH]; intros H.
+  - cbn. symmetry. apply sumR_map_zero. intros; unfold hits; cbn; lra.
+  - cbn [map sumR fst snd]. rewrite IH by (intros; apply H; now right).
+    assert (Hi : (i < n)%nat) by (apply (H (i, w)); now left).
+    rewrite <- (sumR_seq_pick (fun j => g j * w) 0 n i) by lia. rewrite <- sumR_map_add.
+    apply sumR_map_ext. intros j _. unfold hits. cbn [filter fst]. rewrite (Nat.eqb_sym j i).
+    destruct (Nat.eqb i j); cbn [map snd sumR]; lra.
+Qed.
+
+Lemma single_indicator (r1 : list (nat * R)) (c : bool) w0 b w :
+  sumR (map (fun pw1 : nat * R => if c && Nat.eqb (fst pw1) b then w0 * snd pw1 * w else 0) r1)
+  = (if c then w0 else 0) * sumR (map (fun e => if Nat.eqb (fst e) b then snd e else 0) r1) * w.
+Proof.
+  induction r1 as [|[p1 w1] r1 IH1]; cbn [map sumR fst snd]; [ring|]. rewrite IH1.
+  destruct c; destruct (Nat.eqb p1 b); cbn [andb]; ring.
+Qed.
+Lemma double_indicator (r0 r1 : list (nat * R)) a b w :
+  sumR (map (fun pw0 => sumR (map (fun pw1 =>
+      if Nat.eqb (fst pw0) a && Nat.eqb (fst pw1) b then snd pw0 * snd pw1 * w else 0) r1)) r0)
+  = sumR (hits a r0) * sumR (hits b r1) * w.
+Proof.
+  rewrite !hits_as_map. induction r0 as [|[p0 w0] r0 IH]; cbn [map sumR fst snd]; [ring|]. rewrite IH.
+  rewrite single_indicator. ring.
+Qed.
+
+(* what the quadruple loop accumulates into cell (a, b) *)
+Lemma curv_entries_hits rws e0 e1 P1 a b n : (b < P1)%nat -> enc_ok e1 P1 -> rows_ok rws n ->
+  sumR (hits (a * P1 + b) (@curv_entries ROps rws e0 e1 P1)) =
+  sumR (map (fun d0 => sumR (map (fun d1 => E e0 d0 a * U rws d0 d1 * E e1 d1 b) (seq 0 n))) (seq 0 (length rws))).
+Proof.
+  intros Hb Hok Hrows. unfold curv_entries. rewrite hits_flat_map.
+  rewrite (sumR_combine_seq rws [] (fun dr => sumR (hits (a * P1 + b) _))). cbn [fst snd].
+  apply sumR_map_ext. intros d0 _.
+  rewrite hits_flat_map.
+  transitivity (sumR (map (fun iw => (E e0 d0 a * E e1 (fst iw) b) * snd iw) (nth d0 rws []))).
+  - apply sumR_map_ext. intros [d1 w] Hin. cbn [fst snd].
+    rewrite hits_flat_map. unfold E. rewrite <- double_indicator. apply sumR_map_ext. intros pw0 _.
+    rewrite (hits_map (a * P1 + b) (fun pw1 : nat * R => (fst pw0 * P1 + fst pw1)%nat)
+                      (fun pw1 : nat * R => mul ROps (mul ROps (snd pw0) (snd pw1)) w)).
+    apply sumR_map_ext. intros pw1 H1. rewrite rowmajor_eqb; auto. apply (Hok d1). exact H1.
+  - rewrite (group_by_index _ (fun j => E e0 d0 a * E e1 j b) n) by (intros; now apply (Hrows d0)).
+    apply sumR_map_ext. intros d1 _. unfold U. lra.
+Qed.
+Lemma curv_entries_bound rws e0 e1 P0 P1 : enc_ok e0 P0 -> enc_ok e1 P1 -> 
+  Forall (fun en => (fst en < P0 * P1)%nat) (@curv_entries ROps rws e0 e1 P1).
+Proof.
+  intros H0 H1. apply Forall_forall. intros en Hin. unfold curv_entries in Hin.
+  apply in_flat_map in Hin. destruct Hin as [dr [_ Hin]].
+  apply in_flat_map in Hin. destruct Hin as [iw [_ Hin]].
+  apply in_flat_map in Hin. destruct Hin as [pw0 [Hp0 Hin]].
+  apply in_map_iff in Hin. destruct Hin as [pw1 [<- Hp1]]. cbn [fst].
+  apply rowmajor_lt; [apply (H0 _ _ Hp0) | apply (H1 _ _ Hp1)].
+Qed.
+
+Definition G (rws : list (list (nat * R))) e0 e1 n a b : R :=
+  sumR (map (fun d0 => sumR (map (fun d1 => E e0 d0 a * U rws d0 d1 * E e1 d1 b) (seq 0 n))) (seq 0 (length rws))).
+
+Theorem off_preload_spec pre idx lens e0 P0 e1 P1 a b n :
+  let rws := rows_of (combine idx pre) lens in
+  enc_ok e0 P0 -> enc_ok e1 P1 -> rows_ok rws n -> (a < P0)%nat -> (b < P1)%nat ->
+  mget (@off_preload ROps pre idx lens e0 P0 e1 P1) a b = G rws e0 e1 n a b.
+Proof.
+  intros rws H0 H1 Hr Ha Hb. unfold off_preload. rewrite mget_reshape by auto.
+  rewrite scatter_gather_zeros by (now apply curv_entries_bound).
+  now apply curv_entries_hits.
+Qed.
+Lemma shape_off_preload pre idx lens e0 P0 e1 P1 : shape P0 P1 (@off_preload ROps pre idx lens e0 P0 e1 P1).
+Proof. apply shape_reshape. Qed.
+
+(* ---- the two in-place symmetrisation loops of curvature_matrix_via_w_tilde_curvature_preload_imaging_from ---- *)
+Definition mem2 (a b : nat) (L : list (nat * nat)) : bool := existsb (fun ij => Nat.eqb (fst ij) a && Nat.eqb (snd ij) b) L.
+Lemma mem2_In a b L : mem2 a b L = true <-> In (a, b) L.
+Proof.
+  unfold mem2. rewrite existsb_exists. split.
+  - intros [[i j] [Hin H]]. cbn in H. apply andb_true_iff in H. destruct H as [H1 H2].
+    apply Nat.eqb_eq in H1, H2. now subst.
+  - intros H. exists (a, b). split; auto. cbn. now rewrite !Nat.eqb_refl.
+Qed.
+
+Lemma sym1_general P L : forall (F : list R), length F = (P * P)%nat -> NoDup L ->
+  (forall ij, In ij L -> (fst ij <= snd ij)%nat /\ (snd ij < P)%nat) ->
+  forall a b, (a < P)%nat -> (b < P)%nat ->
+  nth (a * P + b) (fold_left (fun F ij => @upd_add ROps F (fst ij * P + snd ij) (@nthT ROps F (snd ij * P + fst ij))) L F) 0
+  = nth (a * P + b) F 0 + (if mem2 a b L then nth (b * P + a) F 0 else 0).
+Proof.
+  induction L as [|[i j] L IH]; intros F HF HN HL a b Ha Hb; cbn [fold_left fst snd].
+  - cbn. ring.
+  - inversion HN as [|? ? Hnin HN']; subst.
+    destruct (HL (i, j) (or_introl eq_refl)) as [Hij HjP]. cbn [fst snd] in Hij, HjP.
+    assert (HiP : (i < P)%nat) by lia.
+    assert (Hlt : (i * P + j < length F)%nat) by (rewrite HF; now apply rowmajor_lt).
+    rewrite IH; [| rewrite (@upd_add_length ROps); exact HF | exact HN' | intros ij' H'; apply HL; now right | exact Ha | exact Hb].
+    rewrite nthT_R. rewrite !nth_upd_add by exact Hlt.
+    rewrite !rowmajor_eqb by assumption.
+    change (mem2 a b ((i, j) :: L)) with ((Nat.eqb i a && Nat.eqb j b) || mem2 a b L).
+    destruct (Nat.eqb i a && Nat.eqb j b) eqn:E1.
+    + apply andb_true_iff in E1. destruct E1 as [E1 E2]. apply Nat.eqb_eq in E1, E2. subst i j.
+      cbn [orb]. destruct (mem2 a b L) eqn:M; [apply mem2_In in M; contradiction|]. lra.
+    + cbn [orb]. destruct (mem2 a b L) eqn:M; [|lra].
+      apply mem2_In in M. destruct (HL (a, b) (or_intror M)) as [Hab _]. cbn [fst snd] in Hab.
+      destruct (Nat.eqb i b && Nat.eqb j a) eqn:E2; [|rfix; ring].
+      apply andb_true_iff in E2. destruct E2 as [E2 E3]. apply Nat.eqb_eq in E2, E3. subst i j.
+      assert (a = b) by lia. subst b. rewrite !Nat.eqb_refl in E1. discriminate.
+Qed.
+Lemma sym2_general P L : forall (F : list R), length F = (P * P)%nat ->
+  (forall ij, In ij L -> (fst ij <= snd ij)%nat /\ (snd ij < P)%nat) ->
+  forall a b, (a < P)%nat -> (b < P)%nat ->
+  nth (a * P + b) (fold_left (fun F ij => upd_set F (snd ij * P + fst ij) (@nthT ROps F (fst ij * P + snd ij))) L F) 0
+  = if mem2 b a L then nth (b * P + a) F 0 else nth (a * P + b) F 0.
+Proof.
+  induction L as [|[i j] L IH]; intros F HF HL a b Ha Hb; cbn [fold_left fst snd].
+  - reflexivity.
+  - destruct (HL (i, j) (or_introl eq_refl)) as [Hij HjP]. cbn [fst snd] in Hij, HjP.
+    assert (HiP : (i < P)%nat) by lia.
+    assert (Hlt : (j * P + i < length F)%nat) by (rewrite HF; now apply rowmajor_lt).
+    rewrite IH; [| rewrite upd_set_length; exact HF | intros ij' H'; apply HL; now right | exact Ha | exact Hb].
+    rewrite nthT_R. rewrite !nth_upd_set by exact Hlt.
+    rewrite !rowmajor_eqb by assumption.
+    change (mem2 b a ((i, j) :: L)) with ((Nat.eqb i b && Nat.eqb j a) || mem2 b a L).
+    destruct (mem2 b a L) eqn:M.
+    + rewrite orb_true_r. destruct (Nat.eqb j b && Nat.eqb i a) eqn:E; auto.
+      apply andb_true_iff in E. destruct E as [E1 E2]. apply Nat.eqb_eq in E1, E2. subst i j.
+      apply mem2_In in M. destruct (HL (b, a) (or_intror M)) as [Hba _]. cbn [fst snd] in Hba.
+      assert (a = b) by lia. now subst.
+    + rewrite orb_false_r. destruct (Nat.eqb j a) eqn:E1; destruct (Nat.eqb i b) eqn:E2; cbn [andb]; auto.
+      apply Nat.eqb_eq in E1, E2. now subst.
+Qed.
+
+Lemma NoDup_app_intro {B} (l1 l2 : list B) :
+  NoDup l1 -> NoDup l2 -> (forall x, In x l1 -> In x l2 -> False) -> NoDup (l1 ++ l2).
+Proof.
+  induction 1 as [|a l1 Ha Hd IH]; intros H2 Hx; cbn; auto. constructor.
+  - rewrite in_app_iff. intros [H|H]; [contradiction | apply (Hx a); [now left | assumption]].
+  - apply IH; auto. intros x H1 H2'. apply (Hx x); [now right | assumption].
+Qed.
+Lemma NoDup_flat_map_pair (l : list nat) (g : nat -> list nat) :
+  NoDup l -> (forall i, NoDup (g i)) -> NoDup (flat_map (fun i => map (pair i) (g i)) l).
+Proof.
+  induction 1 as [|a l Ha Hd IH]; intros Hg; cbn; [constructor|].
+  apply NoDup_app_intro.
+  - apply FinFun.Injective_map_NoDup; auto. intros x y H. now inversion H.
+  - now apply IH.
+  - intros [i j] H1 H2. apply in_map_iff in H1. destruct H1 as [x [H1 _]]. inversion H1; subst.
+    apply in_flat_map in H2. destruct H2 as [i' [Hi' H2]]. apply in_map_iff in H2. destruct H2 as [y [H2 _]].
+    inversion H2; subst. contradiction.
+Qed.
+Lemma upper_pairs_NoDup P : NoDup (upper_pairs P).
+Proof. apply NoDup_flat_map_pair; [apply seq_NoDup | intros; apply seq_NoDup]. Qed.
+Lemma upper_pairs_In P a b : In (a, b) (upper_pairs P) <-> (a <= b)%nat /\ (b < P)%nat.
+Proof.
+  unfold upper_pairs. rewrite in_flat_map. split.
+  - intros [i [Hi H]]. apply in_map_iff in H. destruct H as [j [H Hj]]. inversion H; subst.
+    apply in_seq in Hi, Hj. lia.
+  - intros [H1 H2]. exists a. split; [apply in_seq; lia|]. apply in_map_iff. exists b. split; auto. apply in_seq. lia.
+Qed.
+Lemma mem2_upper P a b : mem2 a b (upper_pairs P) = Nat.leb a b && Nat.ltb b P.
+Proof.
+  destruct (mem2 a b (upper_pairs P)) eqn:M.
+  - apply mem2_In, upper_pairs_In in M. symmetry. apply andb_true_iff. split; [apply Nat.leb_le | apply Nat.ltb_lt]; lia.
+  - symmetry. apply andb_false_iff. destruct (Nat.leb a b) eqn:L; auto. right. destruct (Nat.ltb b P) eqn:L2; auto.
+    apply Nat.leb_le in L. apply Nat.ltb_lt in L2.
+    assert (mem2 a b (upper_pairs P) = true) by (apply mem2_In, upper_pairs_In; lia). congruence.
+Qed.
+
+Lemma fold_upd_add_length (P : nat) L : forall F : list R,
+  length (fold_left (fun F ij => @upd_add ROps F (fst ij * P + snd ij) (@nthT ROps F (snd ij * P + fst ij))) L F) = length F.
+Proof. induction L; intros; cbn; auto. rewrite IHL. apply (@upd_add_length ROps). Qed.
+
+Lemma G_sum_swap rws e n a b : length rws = n ->
+  G rws e e n a b + G rws e e n b a =
+  sumR (map (fun d0 => sumR (map (fun d1 => E e d0 a * (U rws d0 d1 + U rws d1 d0) * E e d1 b) (seq 0 n))) (seq 0 n)).
+Proof.
+  intros Hn. unfold G. rewrite Hn.
+  rewrite (sumR_swap (fun d0 d1 => E e d0 b * U rws d0 d1 * E e d1 a) (seq 0 n) (seq 0 n)).
+  rewrite <- sumR_map_add. apply sumR_map_ext. intros d0 _. rewrite <- sumR_map_add.
+  apply sumR_map_ext. intros d1 _. ring.
+Qed.
+
+Theorem curv_preload_spec pre idx lens e P a b :
+  let rws := rows_of (combine idx pre) lens in
+  let n := length lens in
+  enc_ok e P -> rows_ok rws n -> (a < P)%nat -> (b < P)%nat ->
+  mget (@curv_preload ROps pre idx lens e P) a b =
+  sumR (map (fun d0 => sumR (map (fun d1 => E e d0 a * (U rws d0 d1 + U rws d1 d0) * E e d1 b) (seq 0 n))) (seq 0 n)).
+Proof.
+  intros rws n He Hr Ha Hb. unfold curv_preload. fold rws.
+  assert (Hn : length rws = n) by apply rows_of_length.
+  rewrite mget_reshape by auto.
+  set (F0 := @scatter ROps (@curv_entries ROps rws e e P) (@zeros ROps (P * P))).
+  assert (HF0 : length F0 = (P * P)%nat) by (unfold F0; rewrite (@scatter_length ROps); unfold zeros; apply repeat_length).
+  assert (HG : forall x y, (x < P)%nat -> (y < P)%nat -> nth (x * P + y) F0 0 = G rws e e n x y).
+  { intros x y Hx Hy. unfold F0. rewrite scatter_gather_zeros by (now apply curv_entries_bound).
+    now apply curv_entries_hits. }
+  assert (HU : forall ij, In ij (upper_pairs P) -> (fst ij <= snd ij)%nat /\ (snd ij < P)%nat).
+  { intros [i j] H. now apply upper_pairs_In in H. }
+  rewrite sym2_general; auto; [| now rewrite fold_upd_add_length].
+  rewrite !sym1_general; auto using upper_pairs_NoDup.
+  rewrite !mem2_upper, !HG by auto. rewrite <- G_sum_swap by exact Hn.
+  destruct (Nat.leb b a) eqn:L1; destruct (Nat.leb a b) eqn:L2;
+    destruct (Nat.ltb a P) eqn:L3; destruct (Nat.ltb b P) eqn:L4; cbn [andb];
+    try apply Nat.leb_le in L1; try apply Nat.leb_le in L2; try apply Nat.leb_gt in L1; try apply Nat.leb_gt in L2;
+    try apply Nat.ltb_ge in L3; try apply Nat.ltb_ge in L4; try lia; try lra.
+Qed.
+Lemma shape_curv_preload pre idx lens e P : shape P P (@curv_preload ROps pre idx lens e P).
+Proof. apply shape_reshape. Qed.
